@@ -13,8 +13,6 @@ use alloc::{str::from_utf8, vec};
 #[cfg(feature = "zlib")]
 use miniz_oxide::inflate::decompress_to_vec_zlib_with_limit;
 
-use rustzx_z80::Z80Bus;
-
 const ZXST_MID_128K: u32 = 2;
 
 const ZXSTZF_EILAST: u32 = 1;
@@ -190,10 +188,12 @@ fn process_spcr_block<H: Host>(emulator: &mut Emulator<H>, machine_id: u32, bloc
     // Only 128 and 48k models supported currently. Skipping block_data[2] (union)
 
     // chFe
-    emulator.controller.write_io(0x0fe, block_data[3]);
+    // Applied without bus timings of the port write, position in the frame
+    // should not depend on the presence of this block and its place in the file
+    emulator.controller.write_fe(block_data[3]);
 
     // chBorder
-    // Setting the border after the out to 0xfe above because that too
+    // Setting the border after the value of port 0xfe above because that too
     // sets the border color.
     emulator.controller.border_color = ZXColor::from_bits(block_data[0]);
 }
